@@ -125,6 +125,19 @@ Proof.
   apply sumn_ext. intros t _. exact (sumn_swap V D (fun v d => h t d v)).
 Qed.
 
+(* ---- EmbeddingBag (sum / mean), one bag: a corollary of the embedding theorem with the padding constant zero and the cotangent
+   s * gb at every entry of the bag *)
+Theorem embedding_bag_gs_is_grad (pad : option nat) (s : K) (T V D : nat) (W dW : nat -> nat -> K) (idx : nat -> nat) (gb : nat -> K) :
+  (forall t, t < T -> idx t < V) ->
+  sumn V (fun v => sumn D (fun d => bag_gs K k0 kadd kmul pad s T gb idx v d * dW v d))
+  = sumn D (fun d => gb d * (bag_fwd K k0 kadd kmul pad s T (fun v d => W v d + dW v d) idx d - bag_fwd K k0 kadd kmul pad s T W idx d)).
+Proof.
+  intros Hidx. unfold bag_gs.
+  rewrite (embedding_gs_is_grad pad (fun _ => k0) T V D W dW idx (fun _ d => s * gb d) Hidx).
+  unfold pair2, bag_fwd. rewrite sumn_swap. apply sumn_ext. intros d _.
+  rewrite <- sumn_mul_l. rewrite <- sumn_mul_l. rewrite <- sumn_sub. rewrite <- sumn_mul_l. apply sumn_ext. intros t _. ring.
+Qed.
+
 (* ---- affine part of GroupNorm / LayerNorm / InstanceNorm *)
 Theorem norm_affine_gs_is_grad (P C : nat) (w dw b db : nat -> K) (xhat g : nat -> nat -> K) :
   sumn C (fun c => norm_gs_w K k0 kadd kmul P g xhat c * dw c) + sumn C (fun c => norm_gs_b K k0 kadd P g c * db c)
